@@ -92,10 +92,18 @@ type flowDecl struct {
 	name    string
 	url     string
 	methods []string
+	expr    bool // the filter carries `expressions`
 }
 
+// a response-side expression: request legs are validated by validateExpr with nothing to check
+const flowExpression = "$.response.status"
+
 func (f flowDecl) filter() *streamconfig.Filter {
-	return &streamconfig.Filter{Name: f.name, URL: f.url, Method: append([]string(nil), f.methods...)}
+	flt := &streamconfig.Filter{Name: f.name, URL: f.url, Method: append([]string(nil), f.methods...)}
+	if f.expr {
+		flt.Expressions = []string{flowExpression}
+	}
+	return flt
 }
 
 func (f flowDecl) build() internaltypes.FlowI {
@@ -320,7 +328,8 @@ func exec(c proto.Case, o *proto.Out) []string {
 				outs[i] = "dead"
 				break
 			}
-			d := flowDecl{n, proto.Dec(u), splitMethods(ms)}
+			ex, _ := kv("expr")
+			d := flowDecl{n, proto.Dec(u), splitMethods(ms), ex == "1"}
 			fl := d.build()
 			outs[i] = safeAdd(st.ft, fl)
 			o.Count("L3-addflow-" + outs[i])
